@@ -304,6 +304,50 @@ func c04CheckE2E(c c04E2ECase) engine.Result {
 					}
 				}
 			}
+			// a parsed packet whose clock slot already DECODES to the value without holding its canonical
+			// bytes (reserved bits cleared; base-1 with extension+300): setting that very value must still
+			// leave the canonical bytes in the packet
+			if c.Kind != "af-both" {
+				var priors [][]byte
+				canon := ref.PCRBytes(c.V)
+				cleared := append([]byte{}, canon...)
+				cleared[4] &^= 0x7E
+				priors = append(priors, cleared)
+				if base, ext := c.V/300, c.V%300; base >= 1 && ext+300 <= 511 {
+					var w ref.BitWriter
+					w.Put(33, base-1)
+					w.Ones(6)
+					w.Put(9, ext+300)
+					priors = append(priors, w.Out())
+				}
+				for _, prior := range priors {
+					h := ref.Header{Sync: 0x47, PID: 0x100, AFC: 3, CC: 5}
+					payload := bytes.Repeat([]byte{0x5A}, 183-20)
+					m := &ref.AF{RAI: true, Private: []byte{0xD1, 0xD2}}
+					if c.Kind == "af-pcr" {
+						m.PCR = prior
+					} else {
+						m.OPCR = prior
+					}
+					p := packet.Packet(ref.BuildPacket(h, m, 20, payload))
+					af, err := p.AdaptationField()
+					if err != nil {
+						continue
+					}
+					res.Evals++
+					if c.Kind == "af-pcr" {
+						err = af.SetPCR(c.V)
+						m.PCR = canon
+					} else {
+						err = af.SetOPCR(c.V)
+						m.OPCR = canon
+					}
+					want := packet.Packet(ref.BuildPacket(h, m, 20, payload))
+					if err != nil || p != want {
+						res.Failf(c.Kind+"|packet-bytes-over-equivalent-prior", "value %d set over a slot holding % x (which decodes to the same value): err %v, packet % x want % x", c.V, prior, err, p[4:24], want[4:24])
+					}
+				}
+			}
 			// the same value installed by copying a whole adaptation field from another packet
 			if c.Kind == "af-pcr" {
 				srcPkt := packet.Packet(ref.BuildPacket(ref.Header{Sync: 0x47, PID: 0x21, AFC: 2}, &ref.AF{}, 183, nil))
@@ -425,7 +469,7 @@ func init() {
 			},
 			&engine.Enum[c04E2ECase]{
 				Name: "end-to-end",
-				Rule: "PCR/OPCR set on adaptation fields of length {183,20,13,7} (PCR only, OPCR only, both) read back through method and function-style accessors and compared with the reference packet; PTS / PTS+DTS in reference-built PES headers for 3 stream ids with and without header stuffing and with 0, 1 or 4 bytes following the header; values: sparse(<=2 bits) bases x ext {0,1,255,256,299} and sparse(<=2 bits) PTS",
+				Rule: "PCR/OPCR set on adaptation fields of length {183,20,13,7} (PCR only, OPCR only, both) read back through method and function-style accessors and compared with the reference packet, also when the slot of a parsed packet already decodes to the value without holding its canonical bytes; PTS / PTS+DTS in reference-built PES headers for 3 stream ids with and without header stuffing and with 0, 1 or 4 bytes following the header; values: sparse(<=2 bits) bases x ext {0,1,255,256,299} and sparse(<=2 bits) PTS",
 				Gen: func(r *engine.Run, emit func(c04E2ECase)) {
 					for _, b := range sparse(33, 2, 0) {
 						for _, ext := range []uint64{0, 1, 255, 256, 299} {
